@@ -25,6 +25,9 @@ func runC04(env *core.Env, res *core.Result) {
 	for i := env.From; i < env.To; i++ {
 		res.Cases++
 		c04One(i, env.Rand(i), res)
+		if cronHung {
+			core.AbortWorker(res, env.To-i-1)
+		}
 	}
 }
 
